@@ -18,13 +18,17 @@ import (
 
 // tracks Policer's check progress.
 type nodeCache struct {
-	nodes   map[uint64]bool
+	nodes map[uint64]bool
+	// holders taken on trust (nodes under maintenance): nobody has confirmed
+	// that they store the object
+	assumed map[uint64]struct{}
 	metrics MetricsCollector
 }
 
 func newNodeCache(metrics MetricsCollector) *nodeCache {
 	return &nodeCache{
 		nodes:   make(map[uint64]bool),
+		assumed: make(map[uint64]struct{}),
 		metrics: metrics,
 	}
 }
@@ -42,6 +46,14 @@ func (n *nodeCache) submitReplicaCandidate(node netmap.NodeInfo) {
 // submits storage node as a current object replica holder.
 func (n *nodeCache) submitReplicaHolder(node netmap.NodeInfo) {
 	n.set(node, true)
+	delete(n.assumed, node.Hash())
+}
+
+// marks storage node as a holder of the object replica without any
+// confirmation from it (node under maintenance).
+func (n *nodeCache) submitAssumedReplicaHolder(node netmap.NodeInfo) {
+	n.set(node, true)
+	n.assumed[node.Hash()] = struct{}{}
 }
 
 // processStatus returns current processing status of the storage node
@@ -76,9 +88,11 @@ func (n *nodeCache) SubmitSuccessfulReplication(node netmap.NodeInfo) {
 // checks whether at least one remote container node holds particular object
 // replica (including as a result of successful replication).
 func (n nodeCache) atLeastOneHolder() bool {
-	for _, v := range n.nodes {
+	for k, v := range n.nodes {
 		if v {
-			return true
+			if _, ok := n.assumed[k]; !ok {
+				return true
+			}
 		}
 	}
 
@@ -262,7 +276,7 @@ func (p *Policer) processNodes(ctx context.Context, plc *processPlacementContext
 		// prevent spam with new replicas.
 		// However, additional copies should not be removed in this case,
 		// because we can remove the only copy this way.
-		plc.checkedNodes.submitReplicaHolder(node)
+		plc.checkedNodes.submitAssumedReplicaHolder(node)
 		shortage--
 		uncheckedCopies++
 
